@@ -40,7 +40,7 @@ def main():
             r = sh(["git", "-C", t + "/repo", "apply", patch])
             if r.returncode != 0:
                 print("patch does not apply:", r.stdout); sys.exit(2)
-            sh(["rsync", "-a", "--exclude", ".git", "--exclude", "replays", "--exclude", "seeded", "/verif/", t + "/verif/"])
+            sh(["rsync", "-a", "--exclude", ".git", "--exclude", "replays", "--exclude", "seeded", "--exclude", ".cache/harness-target", "--exclude", ".cache/*-alt-*", "--exclude", "mutants", "/verif/", t + "/verif/"])
             env = dict(os.environ, VERIF_REPO=t + "/repo")
             for p in props:
                 t0 = time.time()
